@@ -618,7 +618,11 @@ func (g *Gen) mutateStmt(top bool) {
 		case 2:
 			g.line("%s.insert(%d, %s)", v.name, g.r.Range(-2, 3), g.expr(kInt, 1))
 		case 3:
-			g.line("%s += %s", v.name, g.expr(kListI, 1))
+			if !g.inFunc && !g.o.D.GlobalReassign {
+				g.line("%s.extend(%s)", v.name, g.expr(kListI, 1))
+			} else {
+				g.line("%s += %s", v.name, g.expr(kListI, 1))
+			}
 		case 4:
 			g.line("%s.append(%s.pop() if %s else 0)", v.name, v.name, v.name)
 		default:
